@@ -105,6 +105,9 @@ def call_src(c, efuns):
         pre = ['x0 = val("%s");' % c["a"], 'x1 = val("%s");' % c["b"], 'x2 = val("%s");' % c["c"], 'x3 = val("%s");' % c["d"]]
         return pre, {"nn": "r = x0[x1..x2];", "rn": "r = x0[<x1..x2];", "nr": "r = x0[x1..<x2];", "rr": "r = x0[<x1..<x2];", "ne": "r = x0[x1..];", "re": "r = x0[<x1..];",
                      "nn_lv": "x0[x1..x2] = x3; r = x0;", "rr_lv": "x0[<x1..<x2] = x3; r = x0;"}[c["form"]]
+    if t == "scan":
+        lv = "".join(", a%d" % (i + 1) for i in range(c["nlv"]))
+        return ['x0 = %s;' % json.dumps(c["inp"])], "r = sscanf(x0, %s%s); bad = !intp(r) || r < 0 || r > 4;" % (json.dumps(c["fmt"]), lv)
     raise ValueError(c)
 
 
@@ -112,11 +115,11 @@ def batch_src(calls, efuns):
     out = ['inherit "/obj/c01lib";']
     nf = 0
     for b0 in range(0, len(calls), 30):
-        out += ["void run%d() {" % nf, "  mixed x0, x1, x2, x3, r, e;"]
+        out += ["void run%d() {" % nf, "  mixed x0, x1, x2, x3, r, e, a1, a2, a3; int bad;"]
         for cid, c in calls[b0:b0 + 30]:
             pre, stmt = call_src(c, efuns)
             out.append("  " + " ".join(pre))
-            out.append('  vlog("\\"e\\":\\"Call\\",\\"id\\":%d"); e = catch { %s }; vlog("\\"e\\":\\"Return\\",\\"out\\":\\"" + (e ? "error" : "value") + "\\",\\"over\\":\\"" + over(r) + "\\""); r = 0;' % (cid, stmt))
+            out.append('  vlog("\\"e\\":\\"Call\\",\\"id\\":%d"); bad = 0; e = catch { %s }; vlog("\\"e\\":\\"Return\\",\\"out\\":\\"" + (e ? "error" : bad ? "wrongtype" : "value") + "\\",\\"over\\":\\"" + over(r) + "\\""); r = 0;' % (cid, stmt))
         out.append("}")
         nf += 1
     out += ["void run() {", "  setup();"] + ["  run%d();" % k for k in range(nf)] + ["}"]
@@ -160,14 +163,14 @@ def run(tier, work, over_verdict=None):
     if tier == "quick":          # the exhaustive part is large: sample operators, keep every efun x position x kind
         ops_ = [c for c in calls if c["t"] != "efun"]
         rnd.shuffle(ops_)
-        calls = [c for c in calls if c["t"] == "efun"] + ops_[:12000]
+        calls = [c for c in calls if c["t"] in ("efun", "scan")] + [c for c in ops_ if c["t"] != "scan"][:12000]
     allc = calls + sims[:nsim]
     print("TLC Surface: %d states; %d efuns from the efun specification; %d evaluations (%d exhaustive efun x position x kind / operator x kinds, %d simulated)" % (
         gs["states"], len(names), len(allc), len(calls), len(allc) - len(calls)))
     # ---- batches: one process per efun / operator
     groups = {}
     for cid, c in enumerate(allc):
-        g = c.get("name") or c.get("op") or c.get("form")
+        g = c.get("name") or c.get("op") or c.get("form") or "sscanf"
         groups.setdefault(c["t"][:4] + "_" + g, []).append((cid, c))
     conf, mdir = work.mudlib(conf_extra="".join("%s %d\n" % kv for kv in OVER_LIMITS.items()) if over_verdict is not None else "")
     os.makedirs(os.path.join(mdir, "c01"), exist_ok=True)
@@ -257,8 +260,13 @@ def run(tier, work, over_verdict=None):
         ex2 = vlib.run_vdrv(exe, conf, [scen[int(ex["id"])]], work, tag="rerun", timeout=60)[0]
         sigs2 = vlib.crashed(ex2)
         if not sigs2 and compiled:
-            print("NOTE failure of batch %s (%s) did not repeat: %s" % (fn, g, json.dumps(sigs)[:200]))
-            continue
+            pos = vlib.confirmed_in_position(exe, conf, {str(sid): ops for sid, ops in scen}, ex, work, timeout=60)
+            if pos:
+                sigs2 = vlib.crashed(pos)
+                ex2 = pos
+            else:
+                print("NOTE failure of batch %s (%s) repeated neither alone nor in its original position: %s" % (fn, g, json.dumps(sigs)[:200]))
+                continue
         cmap = dict(cs)
         c = cmap.get(last) if last is not None else None
         if not compiled:
@@ -269,7 +277,7 @@ def run(tier, work, over_verdict=None):
             ncrash += 1
             s2 = dict(sig, group=g)
             if c:
-                s2["call"] = {k: v for k, v in c.items() if k in ("name", "pos", "kind", "op", "a", "b", "form")}
+                s2["call"] = {k: v for k, v in c.items() if k in ("name", "pos", "kind", "op", "a", "b", "form", "fmt", "nlv", "inp")}
             verdict.add(s2, [json.dumps(c)] + (call_src(c, efuns)[0] + [call_src(c, efuns)[1]] if c else []),
                         "the driver failed during %s" % json.dumps(c), raw=(ex2["end"] or {}).get("raw", ""))
     accepted, nevents, rejects = vlib.validate_executions(SPECSRC, "SurfaceTrace", "SurfaceTrace.cfg", projs, work, max_rejects=60)
@@ -278,7 +286,13 @@ def run(tier, work, over_verdict=None):
         if badi in known_bad:
             continue          # already reported with its sanitizer signature
         b = projs[badi][upto] if upto < len(projs[badi]) else {"e": "?"}
-        verdict.add({"kind": "rejected", "event": b.get("e"), "group": gl[badi][0]}, [json.dumps(p) for p in projs[badi][max(0, upto - 3):upto + 1]], "unexplainable event %s in batch %s" % (json.dumps(b), gl[badi][0]))
+        cids = [p["id"] for p in projs[badi][:upto + 1] if p["e"] == "Call"]
+        c = dict(gl[badi][2]).get(cids[-1]) if cids else None
+        sig = {"kind": "rejected", "event": b.get("e"), "group": gl[badi][0]}
+        if c and b.get("out") == "wrongtype":
+            sig["call"] = {k: v for k, v in c.items() if k in ("fmt", "nlv", "inp")}
+        verdict.add(sig, ([json.dumps(c)] + call_src(c, efuns)[0] + [call_src(c, efuns)[1]] if c else []) + [json.dumps(p) for p in projs[badi][max(0, upto - 3):upto + 1]],
+                    "unexplainable event %s in batch %s%s" % (json.dumps(b), gl[badi][0], " during %s" % json.dumps(c) if c else ""))
     print("TLC P3 SurfaceTrace: %d batches / %d events accepted; %d evaluations returned a value, %d raised an LPC error" % (accepted, nevents, nret["value"], nret["error"]))
     if nret["value"] < 1000 or nret["error"] < 1000:
         raise vlib.Broken("vacuity guard: %s" % json.dumps(nret))
